@@ -137,10 +137,20 @@ func (u *vUniverse) probe(t *testing.T) {
 	}
 }
 
-// expiry of universe chunk i+1; the last two are chunks whose signature does not verify
-var vExpiries = []int64{3, 6, 6, 10, 14, 20, 8, 12, 30, 4, 9, 15}
+// expiry of universe chunk i+1. 1..10: certified chunks of two producers; 11, 12: chunks whose
+// signature does not verify; 13: a well signed chunk with expiry 0 (boundary: never tracked by the
+// expiry map) without certificate; 14: a certified chunk larger than InitialChunkSize (250 KiB).
+var vExpiries = []int64{3, 6, 6, 10, 14, 20, 8, 12, 30, 4, 9, 15, 0, 9}
 
-const vValid = 10
+const (
+	vValid  = 10 // 1..vValid are small certified chunks
+	vZero   = 13
+	vBig    = 14
+	vBigTxs = 3600
+)
+
+// vCertified lists the chunks that have an honest certificate
+var vCertified = []int{1, 2, 3, 4, 5, 6, 7, 8, 9, 10, vBig}
 
 func newVUniverse(t *testing.T) *vUniverse {
 	ctx := context.Background()
@@ -149,15 +159,34 @@ func newVUniverse(t *testing.T) *vUniverse {
 	prodIdx := map[ids.NodeID]int{nodes[0].ID: 1, nodes[1].ID: 2}
 	for i, e := range vExpiries {
 		txID := ids.ID{0xc3, byte(i + 1)}
-		if i < vValid {
+		if i+1 == vZero {
+			c, err := signChunk[dsmrtest.Tx](UnsignedChunk[dsmrtest.Tx]{
+				Producer: nodes[0].ID, Beneficiary: codec.Address{byte(i + 1)}, Expiry: e,
+				Txs: []dsmrtest.Tx{{ID: txID, Expiry: 1_000_000}},
+			}, networkID, chainID, nodes[0].PublicKey, nodes[0].Signer)
+			if err != nil {
+				t.Fatal(err)
+			}
+			bad := &ChunkCertificate{
+				ChunkReference: ChunkReference{ChunkID: c.id, Producer: c.Producer, Expiry: c.Expiry},
+				Signature:      &warp.BitSetSignature{Signers: set.NewBits(0).Bytes(), Signature: [96]byte{1, 2, 3}},
+			}
+			u.chunks = append(u.chunks, &vChunk{idx: i + 1, chunk: c, badCert: bad, producer: 1, valid: true})
+			continue
+		}
+		if i < vValid || i+1 == vBig {
 			n := nodes[0]
-			if i >= 6 {
+			if i >= 6 && i < vValid {
 				n = nodes[1]
 			}
 			// sizes differ so that weights are informative
-			txs := make([]dsmrtest.Tx, 1+i%3)
+			ntx := 1 + i%3
+			if i+1 == vBig {
+				ntx = vBigTxs
+			}
+			txs := make([]dsmrtest.Tx, ntx)
 			for k := range txs {
-				txs[k] = dsmrtest.Tx{ID: ids.ID{0xc3, byte(i + 1), byte(k)}, Expiry: 1_000_000}
+				txs[k] = dsmrtest.Tx{ID: ids.ID{0xc3, byte(i + 1), byte(k), byte(k >> 8)}, Expiry: 1_000_000}
 			}
 			txs[0].ID = txID
 			if err := n.BuildChunk(ctx, txs, e, codec.Address{byte(i + 1)}); err != nil {
@@ -235,6 +264,7 @@ type vScriptClient struct {
 	script   []string
 	calls    int
 	panicked atomic.Bool
+	peer     *GetChunkHandler[dsmrtest.Tx]
 }
 
 var errVSend = errors.New("scripted send failure")
@@ -254,7 +284,7 @@ func (*vScriptClient) AppRequestAny(context.Context, []byte, p2p.AppResponseCall
 }
 func (*vScriptClient) AppGossip(context.Context, common.SendConfig, []byte) error { return nil }
 
-func (s *vScriptClient) AppRequest(ctx context.Context, _ set.Set[ids.NodeID], _ []byte, cb p2p.AppResponseCallback) error {
+func (s *vScriptClient) AppRequest(ctx context.Context, _ set.Set[ids.NodeID], reqBytes []byte, cb p2p.AppResponseCallback) error {
 	s.calls++
 	if len(s.script) == 0 {
 		return errVSend
@@ -264,6 +294,14 @@ func (s *vScriptClient) AppRequest(ctx context.Context, _ set.Set[ids.NodeID], _
 	switch tok {
 	case "S":
 		return errVSend
+	case "P":
+		// the peer node's real handler; the answer travels back through the real typed client
+		rb, appErr := s.peer.AppRequest(ctx, ids.EmptyNodeID, time.Now().Add(time.Second), reqBytes)
+		if appErr != nil {
+			go s.guard(func() { cb(ctx, ids.EmptyNodeID, nil, appErr) })
+		} else {
+			go s.guard(func() { cb(ctx, ids.EmptyNodeID, rb, nil) })
+		}
 	case "E":
 		go s.guard(func() { cb(ctx, ids.EmptyNodeID, nil, ErrChunkNotAvailable) })
 	default:
@@ -298,6 +336,7 @@ type vSUT struct {
 	node     *Node[dsmrtest.Tx]
 	index    *validitywindowtest.MockChainIndex[*emapChunkCertificate]
 	client   *vScriptClient
+	peer     *ChunkStorage[dsmrtest.Tx] // a second node: its real GetChunkHandler answers "P" tokens
 	blocks   map[int]*vBlock
 	lastH    int  // handle of the last accepted block
 	poisoned bool // a SetMin failed in this sequence
@@ -342,7 +381,12 @@ func (s *vSUT) reset() {
 	if err != nil {
 		s.t.Fatal(err)
 	}
-	s.client = &vScriptClient{u: s.u}
+	pst, err := NewChunkStorage[dsmrtest.Tx](NewChunkVerifier[dsmrtest.Tx](chainState, s.rf), memdb.New(), s.rf)
+	if err != nil {
+		s.t.Fatal(err)
+	}
+	s.peer = pst
+	s.client = &vScriptClient{u: s.u, peer: &GetChunkHandler[dsmrtest.Tx]{storage: pst}}
 	node.getChunkClient = typedclient.NewTypedClient[*pb.GetChunkRequest, Chunk[dsmrtest.Tx], []byte](s.client, getChunkMarshaler[dsmrtest.Tx]{})
 	s.node = node
 	s.blocks = map[int]*vBlock{0: {blk: gen, parent: 0, verified: true}}
@@ -371,6 +415,19 @@ func vJoinOrdered(l []int) string {
 		ss[i] = strconv.Itoa(v)
 	}
 	return strings.Join(ss, ",")
+}
+
+// peerHolds: the peer node stores chunk i (pending, or accepted under its expiry slot)
+func (s *vSUT) peerHolds(i int) bool {
+	c := s.u.get(i)
+	if c == nil {
+		return false
+	}
+	if _, ok := s.peer.pendingChunkMap[c.chunk.id]; ok {
+		return true
+	}
+	ok, err := s.peer.chunkDB.Has(acceptedChunkKey(c.chunk.Expiry, c.chunk.id))
+	return err == nil && ok
 }
 
 func (s *vSUT) idxOf(id ids.ID) int {
@@ -594,6 +651,40 @@ func (s *vSUT) exec(line string) (out string) {
 			return "err"
 		}
 		return "ok"
+	case "paddlocal":
+		if len(f) != 2 {
+			return "bad-op"
+		}
+		i, ok := num(f[1])
+		c := s.u.get(i)
+		if !ok || c == nil {
+			return "bad-op"
+		}
+		if err := s.peer.AddLocalChunkWithCert(c.chunk, nil); err != nil {
+			return "err"
+		}
+		return "ok"
+	case "psetmin":
+		if len(f) < 2 {
+			return "bad-op"
+		}
+		m, ok := num(f[1])
+		if !ok {
+			return "bad-op"
+		}
+		var save []ids.ID
+		for _, w := range f[2:] {
+			i, ok := num(w)
+			c := s.u.get(i)
+			if !ok || c == nil {
+				return "bad-op"
+			}
+			save = append(save, c.chunk.id)
+		}
+		if err := s.peer.SetMin(int64(m), save); err != nil {
+			return "err"
+		}
+		return "ok"
 	case "vremote":
 		if len(f) != 2 {
 			return "bad-op"
@@ -808,7 +899,7 @@ func (s *vSUT) exec(line string) (out string) {
 			return "bad-op"
 		}
 		for _, tok := range f[2:] {
-			if tok == "E" || tok == "S" {
+			if tok == "E" || tok == "S" || tok == "P" {
 				continue
 			}
 			if j, ok := num(tok); !ok || s.u.get(j) == nil {
